@@ -245,7 +245,8 @@ def check(ctx):
         cl = [lib.tail(n, 2) for b, t, n, ch in lib.field_method_calls(ds, "ReactCache", "despawn_sender")]
         ctx.check(cl in (["Sender::clone"], ["Clone::clone"]), "C08.c", "ReactCache::despawn_sender:clones-own-sender", "%s:%d" % (ds.file, ds.line), "", "despawn_sender() does not return a clone of the cache's own sender: %s" % cl)
         sdr = A.method(prog, "ReactCache", "schedule_despawn_reactions")
-        rc = [lib.tail(n, 2) for b, t, n, ch in lib.field_method_calls(sdr, "ReactCache", "despawn_receiver")]
+        # calls *on the receiver itself* (what is done with a received entity, e.g. logging it, is not a read of the channel)
+        rc = [lib.tail(n, 2) for b, t, n, ch in lib.field_method_calls(sdr, "ReactCache", "despawn_receiver") if not ch]
         ctx.check(rc == ["Receiver::try_recv"], "C08.c", "schedule_despawn_reactions:reads-own-receiver", "%s:%d" % (sdr.file, sdr.line), "", "schedule_despawn_reactions reads %s" % rc)
     except mir.AnchorLost as e:
         ctx.fail("C08.c", "anchor-lost:despawn channel", "", str(e))
@@ -267,6 +268,10 @@ def check(ctx):
     nm += core.adopt(ctx, _c11, lambda o: o["rule"] == "C11.prepared" and "appends-exactly-one-entry" in o["key"], "C08.f")
     nm2 = core.adopt(ctx, _c02, lambda o: o["rule"] == "C02.a" and any(k in o["key"] for k in ("single-disposition", "dispositions=", "abort-only")), "C08.f")
     ctx.floor("C08.f", nm + nm2, 5, "shared one-run-per-scheduled-reaction obligations (C02.a, C02.d, C11.prepared): a scheduled reaction runs, is postponed or is aborted only because its target is gone")
+    # a removal / despawn reaction postponed because its reactor is busy is replayed (every postponed entry for the finished
+    # system, not just the first; shared with C02.c)
+    nm3 = core.adopt(ctx, _c02, lambda o: o["rule"] == "C02.c", "C08.f")
+    ctx.floor("C08.f", nm3, 8, "shared replay obligations (C02.c)")
     nk = core.adopt(ctx, c01, lambda o: o["rule"] == "C01.a" and "entity-scoped-dispatch:every-component-kind" in o["key"], "C08.d")
     # 'every reactor registered for it throughout': a removal / despawn registration disappears only through its own
     # revocation (the entry of a component is deleted only when all of its lists are empty; a revoke removes one entry)
@@ -349,7 +354,17 @@ def check(ctx):
                   "and despawns caused by dropping its callback are missed in this tree", lib.render_path(R, w2) if w2 else None)
         # poll calls both schedulers then flushes
         sch = {}
-        for bd in [poll] + prog.closures_of(poll):
+        # the body handed to resource_scope: a closure of poll, or a crate function passed by name
+        scoped = list(prog.closures_of(poll))
+        for b, t, fr in poll.iter_calls():
+            if fr and lib.tail(mir.fn_name(fr), 1) == "resource_scope":
+                for a in t["args"]:
+                    for o in origins(poll, a):
+                        if o[0] == "fnitem":
+                            fb_ = prog.by_path.get(o[1]) or (prog.find(o[1])[0] if prog.find(o[1]) else None)
+                            if fb_ is not None and fb_ not in scoped:
+                                scoped.append(fb_)
+        for bd in [poll] + scoped:
             ctx.touch(bd)
             for b, t, fr in bd.iter_calls():
                 if fr and lib.tail(mir.fn_name(fr), 1) in ("schedule_removal_reactions", "schedule_despawn_reactions"):
